@@ -103,7 +103,8 @@ def main() -> int:
         if len(reported) >= 6:  # enough distinct replays; the rest is counted in the evidence only
             continue
         reported.add(sig)
-        small = common.shrink_case(suite, v["case"], prop, "oracle", sig)
+        slow = v["impl"].get("timeout") or v["impl"].get("memory_error")
+        small = v["case"] if slow else common.shrink_case(suite, v["case"], prop, "oracle", sig)
         vv, dd, im, mo = common.recheck(suite, small, prop)
         path = common.write_replay(prop, {"property": prop, "kind": "failing-input", "suite": sname, "signature": sig,
                                           "case": small, "what": vv or v["desc"], "impl": im, "model": mo,
